@@ -50,6 +50,7 @@ class StackWorld(object):
     self.p = params
     self.lp = vloop.loop()
     self.net = simnet.new_net()
+    self.net.max_recv, self.net.max_send = params.get('max_recv'), params.get('max_send')
     self.net.connect_delay = params.get('connect_delay', 0)
     self.server_log = []
     self.viol = []
@@ -237,7 +238,7 @@ class StackWorld(object):
     gevent.spawn(self.ssp.on_leave if kind == 'leave' else self.ssp.on_join, srv)
 
   def _op_enabled(self, op):
-    if op[0] in ('call', 'close'):
+    if op[0] in ('call', 'close', 'burst'):
       return self.client is not None
     if op[0] == 'at':
       return self.lp.now() >= vloop.EPOCH + op[1] - EPS       # the application does nothing until then
@@ -265,6 +266,11 @@ class StackWorld(object):
       self.client.DispatcherClose()
     elif op[0] == 'at':
       pass
+    elif op[0] == 'burst':
+      # the application issues the next n calls back to back, without letting the loop run in between
+      for _ in range(op[1]):
+        if self.ops:
+          self._do_next_op()
 
   # ---- end of execution -------------------------------------------------------------------------------------
   def finish(self):
